@@ -18,6 +18,7 @@ import Driver.OpJBody
 import Driver.OpGohcl
 import Driver.OpParseX
 import Driver.OpGenV
+import Driver.OpTmpl
 open HclModel
 
 structure St where
@@ -88,6 +89,7 @@ def handle (st : St) (line : String) : St × String :=
   else if line.startsWith "EXPAND " then (st, expandLine (line.drop 7).toString)
   else if line.startsWith "JBODY " then (st, jbodyLine (line.drop 6).toString)
   else if line.startsWith "GOHCL " then (st, gohclLine (line.drop 6).toString)
+  else if line.startsWith "TMPL " then (st, tmplLine (line.drop 5).toString)
   else if line.startsWith "GENV " then (st, genvLine (line.drop 5).toString)
   else if line.startsWith "PARSEG " then (st, parsegLine (line.drop 7).toString)
   else if line.startsWith "PARSEX " then (st, parsexLine (line.drop 7).toString)
